@@ -91,6 +91,19 @@ def check(case):
         return [V("construction_raised", "{!r}".format(e), fam + exc_sig(e), **attrs)], dict(nontrivial=False, labels=labels)
     targets = [t0 + c * (tf - t0) for c in case["cuts"]] + [None]
     for tg in targets:
+        if len(a) > 2 and a.sol is not None and np.all(np.isfinite(np.asarray(a.y))):
+            # queries made between calls (array-shaped ones fill the lookup cache) must not disturb later ones
+            tq = np.asarray(a.t, dtype=np.float64)
+            mids = 0.5 * (tq[:-1] + tq[1:])
+            try:
+                early = np.asarray(a.sol(mids), dtype=np.float64)
+                for i in (0, len(mids) - 1):
+                    if not np.array_equal(early[i], np.asarray(a.sol(np.float64(mids[i])), dtype=np.float64)):
+                        return [V("array_vs_scalar", "between two calls sol(array)[{}] differs from sol(scalar) at t={!r}".format(i, float(mids[i])), fam, direction="backward" if backward else "forward", **attrs)], dict(nontrivial=False, labels=labels)
+            except Exception as e:
+                if exc_origin(e)[0] == "harness":
+                    raise
+                return [V("query_raised", "sol(array) between two calls raised {!r}".format(e), fam + exc_sig(e), **attrs)], dict(nontrivial=False, labels=labels)
         err = traj.run_integrate(a, tg, step_limit=len(a) + (300 if fam in ("implicit_fixed", "implicit_embedded", "richardson") else 2500))
         if isinstance(err, traj.StepCap):
             return [], dict(nontrivial=False, labels=labels + ["capped"])
